@@ -478,6 +478,8 @@ Definition guar_merge (wrap : gname) : option aspec :=
   else if gname_eqb wrap "wrapWriteMergeCommandKVKV" then Some (mkA 3 None (Some false))
   else None.
 
+Lemma len_cons {A} (x : A) l : length (x :: l) = S (length l).
+Proof. reflexivity. Qed.
 Lemma cut_all_len l : length (cut_all l) = length l.
 Proof. induction l as [|k r IH]; simpl; [reflexivity|]. rewrite IH. reflexivity. Qed.
 Lemma flat_pairs_len {A} (f : A -> list bytes) l : (forall x, length (f x) = 2%nat) -> length (flat_map f l) = (2 * length l)%nat.
@@ -502,16 +504,19 @@ Proof.
     destruct (negb (all_keys_in_ns ns (x1 :: xs))); [discriminate|].
     destruct (max_batch_num <? N.of_nat (length (x1 :: xs))); [discriminate|].
     injection H as Hn' Ha. subst n a. split; [|split; [eexists; reflexivity|reflexivity]].
-    cbn [length]. rewrite cut_all_len. apply sat_intro; cbn [lo hi par A_ge]; [cbn [length]; lia|exact I|exact I].
+    rewrite !len_cons. apply sat_intro; cbn [lo hi par A_ge]; [lia|exact I|exact I].
   - destruct (gname_eqb wrap "wrapWriteMergeCommandKVKV") eqn:E2; [|discriminate].
     inversion Hg; subst g; clear Hg.
     destruct (negb (all_keys_in_ns ns (map fst (plset_pairs (x1 :: xs))))); [discriminate|].
     destruct (plset_pairs (x1 :: xs)) as [|kv kvs] eqn:Ekv; [discriminate|].
-    destruct (max_batch_num <? N.of_nat (length (kv :: kvs))); [discriminate|].
+    assert (Hm : (1 <= length (kv :: kvs))%nat) by (rewrite len_cons; lia).
+    remember (kv :: kvs) as kvl eqn:Ekvl. clear Ekvl.
+    destruct (max_batch_num <? N.of_nat (length kvl)); [discriminate|].
     injection H as Hn' Ha. subst n a. split; [|split; [eexists; reflexivity|reflexivity]].
-    cbn [length]. rewrite flat_pairs_len by (intro; reflexivity).
-    apply sat_intro; cbn [lo hi par]; [cbn [length]; lia|exact I|].
-    replace (S (2 * length (kv :: kvs))) with (2 * length (kv :: kvs) + 1)%nat by lia. apply even_2k1.
+    rewrite len_cons, flat_pairs_len by (intro; reflexivity).
+    remember (length kvl) as m eqn:Em. clear Em.
+    apply sat_intro; cbn [lo hi par]; [lia|exact I|].
+    replace (S (2 * m)) with (2 * m + 1)%nat by lia. apply even_2k1.
 Qed.
 
 (* ---------- the check over the generated table ---------- *)
@@ -566,7 +571,7 @@ Proof.
   unfold apply_ok. intros Hok Hs [tl ->] Hk.
   apply andb_prop in Hok. destruct Hok as [Hlo Hh].
   pose proof (sat_lo _ _ Hs) as Hl. destruct tl as [|k rest]; [simpl in Hl; lia|].
-  simpl. rewrite Hk. destruct (find_reg KInternal key reg_table) as [h|]; [|discriminate].
+  unfold apply_shape. rewrite Hk. destruct (find_reg KInternal key reg_table) as [h|]; [|discriminate].
   apply andb_prop in Hh. destruct Hh as [Hd He]. rewrite Hd.
   apply needs_sound. apply entails_sound with (1 := He). exact Hs.
 Qed.
